@@ -1,0 +1,70 @@
+//go:build verif
+
+package api
+
+// Contracts for the deductive verifier in /verif (govc). Comment-only file: adds no code.
+
+// The default chain of a route, outermost first: tracing, log, prometheus, MaxConns(configured), the route's
+// breaker, shedding, TimeoutHandler(route timeout or configured default), RecoverHandler, metrics,
+// MaxBytesHandler(route limit or configured default), gunzip - so the timeout wraps the recovery (a panic is
+// turned into 500 inside the timed section), connection limiting and the breaker sit outside both, and the
+// body limit is inside. Authentication / signature verification come after it, then user middlewares, then the
+// handler; the result is registered under the route's method and path.
+//@ func (*engine).bindRoute
+//@   prop C02, C04
+//@   opaque getLogHandler, getShedder, checkedTimeout, checkedMaxBytes, appendAuthHandler, convertMiddleware
+//@   opaque New, TracingHandler, PrometheusHandler, MaxConns, BreakerHandler, SheddingHandler, TimeoutHandler, MetricHandler, MaxBytesHandler
+//@   requires ng != nil
+//@   let hs = arg(chain.New, 0)
+//@   loop 1 invariant -1 <= rangeindex
+//@   ensures [chain-0] ng.chain == nil ==> calls(chain.New) == 1
+//@   ensures [chain-len] ng.chain == nil ==> len(hs) == 11
+//@   ensures [chain-1] ng.chain == nil ==> hs[0] == ret(handler.TracingHandler)
+//@   ensures [chain-2] ng.chain == nil ==> hs[1] == ret(getLogHandler)
+//@   ensures [chain-3] ng.chain == nil ==> hs[2] == ret(handler.PrometheusHandler)
+//@   ensures [chain-4] ng.chain == nil ==> hs[3] == ret(handler.MaxConns)
+//@   ensures [chain-5] ng.chain == nil ==> hs[4] == ret(handler.BreakerHandler)
+//@   ensures [chain-6] ng.chain == nil ==> hs[5] == ret(handler.SheddingHandler)
+//@   ensures [chain-7] ng.chain == nil ==> hs[6] == ret(handler.TimeoutHandler)
+//@   ensures [chain-8] ng.chain == nil ==> hs[7] == handler.RecoverHandler
+//@   ensures [chain-9] ng.chain == nil ==> hs[8] == ret(handler.MetricHandler)
+//@   ensures [chain-10] ng.chain == nil ==> hs[9] == ret(handler.MaxBytesHandler)
+//@   ensures [chain-11] ng.chain == nil ==> hs[10] == handler.GunzipHandler
+//@   ensures [configured-limits] ng.chain == nil ==> calls(handler.MaxConns, ng.config.MaxConns) == 1 && calls(handler.TimeoutHandler, ret(checkedTimeout)) == 1 && calls(ng.checkedTimeout, fr.timeout) == 1 && calls(handler.MaxBytesHandler, ret(checkedMaxBytes)) == 1 && calls(ng.checkedMaxBytes, fr.maxBytes) == 1 && arg(handler.BreakerHandler, 0) == route.Method && arg(handler.BreakerHandler, 1) == route.Path
+//@   ensures [custom-chain-used-as-is] ng.chain != nil ==> calls(chain.New) == 0 && arg(appendAuthHandler, 2) == ng.chain
+//@   ensures [auth-after-the-guards] calls(ng.appendAuthHandler) == 1 && arg(appendAuthHandler, 3) == verifier && (ng.chain == nil ==> arg(appendAuthHandler, 2) == ret(chain.New))
+//@   ensures [registered-under-method-and-path] calls(router.Handle) == 1 && arg(router.Handle, 0) == route.Method && arg(router.Handle, 1) == route.Path && arg(router.Handle, 2) == ret(ThenFunc) && arg(ThenFunc, 0) == route.Handler && result == ret(router.Handle)
+// Route timeout / body limit: the route's own value when positive, else the configured default.
+//@ func (*engine).checkedTimeout
+//@   prop C02
+//@   requires ng != nil
+//@   ensures [route-else-default] result == ite(timeout > 0, timeout, ng.config.Timeout * 1000000)
+//@ func (*engine).checkedMaxBytes
+//@   prop C02
+//@   requires ng != nil
+//@   ensures [route-else-default] result == ite(bytes > 0, bytes, ng.config.MaxBytes)
+// JWT: an enabled route gets exactly one Authorize with its secret (and previous secret when configured); the
+// signature verifier is applied after it.
+//@ func (*engine).appendAuthHandler
+//@   prop C04
+//@   opaque Authorize, WithPrevSecret, WithUnauthorizedCallback
+//@   ensures [jwt-enabled-authorizes-once] fr.jwt.enabled ==> calls(handler.Authorize) == 1 && arg(handler.Authorize, 0) == fr.jwt.secret && calls(chn.Append) == 1 && len(arg(chn.Append, 0)) == 1 && arg(chn.Append, 0)[0] == ret(handler.Authorize) && (calls(handler.WithPrevSecret) == 1) == (len(fr.jwt.prevSecret) > 0) && (len(fr.jwt.prevSecret) > 0 ==> arg(handler.WithPrevSecret, 0) == fr.jwt.prevSecret)
+//@   ensures [jwt-disabled-no-authorize] !fr.jwt.enabled ==> calls(Authorize) == 0 && calls(Append) == 0
+//@   ensures [verifier-last] calls(verifier) == 1 && result == ret(verifier) && (fr.jwt.enabled ==> arg(verifier, 0) == ret(chn.Append)) && (!fr.jwt.enabled ==> arg(verifier, 0) == chn)
+// Signature setting: disabled => nothing added; enabled without keys => an error in strict mode, nothing added
+// otherwise.
+//@ func (*engine).signatureVerifier
+//@   prop C04
+//@   opaque NewRsaDecryptor
+//@   loop 1 invariant -1 <= rangeindex
+//@   ensures [strict-without-keys-is-a-config-error] signature.enabled && len(signature.PrivateKeys) == 0 && signature.Strict ==> result1 == ErrSignatureConfig && result0 == nil
+//@   ensures [disabled-or-lenient-without-keys-is-identity] !signature.enabled || len(signature.PrivateKeys) == 0 && !signature.Strict ==> result1 == nil && calls(NewRsaDecryptor) == 0
+//@ func (*engine).signatureVerifier$3
+//@   prop C04
+//@   opaque ContentSecurityHandler
+//@   ensures [verifier-appended-with-settings] calls(handler.ContentSecurityHandler) == 1 && arg(handler.ContentSecurityHandler, 0) == decryptors && arg(handler.ContentSecurityHandler, 1) == signature.Expire && arg(handler.ContentSecurityHandler, 2) == signature.Strict && calls(chn.Append) == 1 && result == ret(chn.Append)
+// Server timeouts derive from the configured timeout (read 80 %, write 90 %) only when one is configured.
+//@ func (*engine).withTimeout$1
+//@   prop C02
+//@   requires svr != nil && ng != nil
+//@   ensures [no-timeout-untouched] ng.config.Timeout <= 0 ==> svr.ReadTimeout == old(svr.ReadTimeout) && svr.WriteTimeout == old(svr.WriteTimeout)
